@@ -237,7 +237,7 @@ func generate(args []string) []*vmh.Case {
 	if quick {
 		g.random(900)
 	} else {
-		g.random(25000)
+		g.random(10000)
 	}
 	return g.cs
 }
